@@ -67,8 +67,18 @@ _LTOK = re.compile(r"\\[A-Za-z]+|\\.|\d+(?:\.\d+)?|\s+|.", re.S)
 
 
 def latex_tokens(s: str) -> list[str]:
-    """LaTeX lexer: commands, numbers, single characters; white space dropped."""
-    return [t for t in _LTOK.findall(s) if not t.isspace()]
+    """LaTeX lexer: commands, numbers, single characters; white space dropped.  TeX ignores blanks in math mode, so
+    two numbers separated only by blanks are typeset - and read - as one digit string ("2 3" is 23)."""
+    out: list[str] = []
+    for t in _LTOK.findall(s):
+        if t.isspace():
+            continue
+        if t[0].isdigit() and "." not in t and out and out[-1][0].isdigit() and \
+                (len(out) < 2 or out[-2] not in ("^", "_")):
+            out[-1] += t      # a number directly after a number (only blanks between): one digit string
+        else:
+            out.append(t)
+    return out
 
 
 def normalise_scripts(toks: list[str]) -> list[str]:
